@@ -1,6 +1,7 @@
 """Reports, obligations, known findings, evidence files, exit codes."""
 import ast
 import json
+import re
 import os
 import sys
 import time
@@ -90,8 +91,8 @@ class Report(object):
         got = sum(1 for o in self.obligations if o.rule == rule)
         self.floors[rule] = (n, got)
         if not hasattr(self, '_known'):
-            self._known = set((k['rule'], k['key']) for k in load_known().get('known', []) if k['property'] == self.pid)
-        if got < n and not any(not o.ok and (o.rule, o.key) not in self._known for o in self.obligations):
+            self._known = set((k[1], k[2]) for k in known_set(self.pid))
+        if got < n and not any(not o.ok and (o.rule, known_key(o.key)) not in self._known for o in self.obligations):
             # (when the rule already reports a violation, later instances may have been cut short;
             #  the floor only guards against *vacuous passes*)
             raise AnalysisError('rule %s matched %d instance(s), floor is %d %s'
@@ -126,6 +127,28 @@ class Report(object):
         self.decided.append(text)
 
 
+def known_key(key):
+    """The part of an obligation key that identifies a known finding: the key without its leading module component
+    (``clastic.sinter::get_fb::kind positional-only`` -> ``get_fb::kind positional-only``), so that a recorded finding stays
+    recognised when its function moves to another module of the package."""
+    head, sep, tail = key.partition('::')
+    return tail if sep and re.match(r'^[A-Za-z_][A-Za-z0-9_.]*$', head) else key
+
+
+def known_set(pid=None):
+    """{(property, rule, module-free key): entry} of the recorded known findings."""
+    out = {}
+    for k in load_known().get('known', []):
+        if pid is None or k['property'] == pid:
+            out[(k['property'], k['rule'], known_key(k['key']))] = k
+    return out
+
+
+def is_known(pid, rule, key, table=None):
+    table = known_set() if table is None else table
+    return (pid, rule, known_key(key)) in table
+
+
 def load_known():
     try:
         with open(KNOWN_FINDINGS) as f:
@@ -137,15 +160,12 @@ def load_known():
 
 def finish(rep, seed=0, quiet=False):
     """Print the verdict, write evidence, return the exit code."""
-    known = load_known()
-    known_keys = {}
-    for k in known.get('known', []):
-        known_keys[(k['property'], k['rule'], k['key'])] = k
+    known_keys = known_set()
     viols, knowns = [], []
     for ob in rep.obligations:
         if ob.ok:
             continue
-        kk = (rep.pid, ob.rule, ob.key)
+        kk = (rep.pid, ob.rule, known_key(ob.key))
         if kk in known_keys:
             knowns.append((ob, known_keys[kk]))
         else:
